@@ -3,12 +3,17 @@ trace parsing, projections, oracles, minimisation, replay and evidence files."""
 import fcntl, hashlib, json, os, re, subprocess, sys, time
 
 VERIF = os.path.dirname(os.path.dirname(os.path.abspath(__file__)))
-REPO = "/repo"
+REPO = os.environ.get("VERIF_REPO", "/repo")
 WORK = os.path.join(VERIF, ".work")
 LEAN = os.path.join(VERIF, "lean", "CircBuf")
 DRIVER = os.path.join(LEAN, ".lake", "build", "bin", "driver")
 HARNESS_DIR = os.path.join(VERIF, "harness")
 TARGET = os.path.join(WORK, "target")
+if REPO != "/repo":
+    # self-test mode: the same harness sources built against a scratch copy of the repository
+    _tag = hashlib.sha1(REPO.encode()).hexdigest()[:8]
+    TARGET = os.path.join(WORK, "alt-target-" + _tag)
+    _alt = os.path.join(WORK, "alt-harness-" + _tag)
 FORBIDDEN = re.compile(r"\b(sorry|admit|native_decide|bv_decide|implemented_by|unsafe)\b|^\s*axiom\s|maxHeartbeats\s+0", re.M)
 ALLOWED_AXIOMS = {"propext", "Quot.sound", "Classical.choice"}
 
@@ -105,6 +110,16 @@ def audit_axioms(theorems):
 
 def build_harness(features=(), nightly=False):
     """build the Rust harness against /repo's current working tree with the hooks on"""
+    global HARNESS_DIR
+    if REPO != "/repo":
+        import shutil
+        src = os.path.join(VERIF, "harness")
+        if os.path.exists(_alt):
+            shutil.rmtree(_alt)
+        shutil.copytree(src, _alt, ignore=shutil.ignore_patterns("target", "scripts"))
+        ct = open(os.path.join(_alt, "Cargo.toml")).read().replace('path = "/repo"', f'path = "{REPO}"')
+        open(os.path.join(_alt, "Cargo.toml"), "w").write(ct)
+        HARNESS_DIR = _alt
     cmd = ["cargo"] + (["+nightly"] if nightly else []) + ["build", "--offline", "--quiet"]
     tdir = TARGET
     if features or nightly:
